@@ -420,7 +420,12 @@ var dataAlgIDs = append(append([]string{}, h.DataAlgs...), types.MethodTripleDES
 func genC09Cipher(t *rapid.T) C09Cipher {
 	c := C09Cipher{Cfg: rapid.SampledFrom([]int{1, 2, 3, 6, 1, 2, 3, 6, 8, 9, 12, 13, 14, 15, 16, 17}).Draw(t, "cfg"), Signed: rapid.IntRange(0, 3).Draw(t, "signed") == 0}
 	to := h.CertRef{Key: "E1", Window: "wide"}
-	e := h.EncSpec{To: to, Digest: rapid.SampledFrom(append(h.DigestChoices, "urn:unknown:digest")).Draw(t, "digest")}
+	e := h.EncSpec{To: to, Digest: rapid.SampledFrom(append(append([]string{}, h.DigestChoices...), "urn:unknown:digest",
+		// digest identifiers of XML-Enc 1.1 / XML-DSig / RFC 6931 that the library does not export: hash functions
+		// that may be known by name but not linked into the binary
+		"http://www.w3.org/2001/04/xmlenc#ripemd160", "http://www.w3.org/2001/04/xmldsig-more#sha384", "http://www.w3.org/2001/04/xmldsig-more#sha224",
+		"http://www.w3.org/2001/04/xmldsig-more#md5", "http://www.w3.org/2007/05/xmldsig-more#sha3-256", "http://www.w3.org/2007/05/xmldsig-more#sha3-512",
+		"http://www.w3.org/2007/05/xmldsig-more#whirlpool", "http://www.w3.org/2000/09/xmldsig#sha1", "http://www.w3.org/2001/04/xmlenc#sha256", "http://www.w3.org/2001/04/xmlenc#sha512")).Draw(t, "digest")}
 	e.DataAlg = rapid.SampledFrom(dataAlgIDs).Draw(t, "dataAlg")
 	e.Transport = rapid.SampledFrom(append(append([]string{}, h.Transports...), "urn:unknown:transport", "")).Draw(t, "transport")
 	klen := rapid.SampledFrom([]int{16, 24, 32, 16, 24, 32, 0, 1, 15, 33}).Draw(t, "keyLen")
